@@ -384,7 +384,7 @@ def strategy(focus, wrap=False):
         for _ in range(nf):
             sel = draw(st.sampled_from(["produce", "produce", "produce", "metadata", "init_pid"]))
             if sel == "produce":
-                act = draw(st.sampled_from(["error", "apply_error", "drop", "apply_drop", "no_reply",
+                act = draw(st.sampled_from(["error", "error_first", "apply_error", "drop", "apply_drop", "no_reply",
                                             "swallow", "delay"]))
                 code = draw(st.sampled_from(retri))
                 if act == "apply_error":
